@@ -36,6 +36,13 @@ def guard(src, x, y):
             ENG.assume(core.Or(core.And(d <= NEAR, d >= -NEAR), d >= FAR, d <= -FAR))
 
 
+class _Foreign:
+    pass
+
+
+FOREIGN = _Foreign()
+
+
 def eq_laws(src, a, b, c, prefix, sigprefix):
     """equivalence relation, != is the negation (and does not raise), equal => equal hash"""
     obs = []
@@ -59,6 +66,13 @@ def eq_laws(src, a, b, c, prefix, sigprefix):
         ob('ne-is-negation', ne == (not ab))
     except Exception as e:   # noqa
         ob('ne-raises', False, 'ne-raises:' + type(e).__name__)
+    # operands of another type: never equal, != is still the negation, neither raises (both operand orders)
+    for k, f in enumerate((None, 0, 'x', (1, 2), [a], FOREIGN)):
+        try:
+            r = [bool(a == f), bool(a != f), bool(f == a), bool(f != a)]
+            ob('foreign-operand@%d' % k, r == [False, True, False, True], 'foreign-operand')
+        except Exception as e:   # noqa
+            ob('foreign-operand-raises@%d' % k, False, 'foreign-raises:' + type(e).__name__)
     if ab:
         ob('equal-implies-equal-hash', harness.hash_equal(a, b, src.symbolic))
     else:
